@@ -301,6 +301,9 @@ pub struct HostPort {
     pub rec_log: Option<Rc<RefCell<RecLog>>>,
     pub tx_count: u64,
     pub rx_count: u64,
+    /// last emitted sequence id of the message types with a counter of their own
+    /// (Announce, Sync, Delay_Req, Pdelay_Req)
+    pub last_seq: [Option<u16>; 4],
 }
 
 impl HostPort {
@@ -565,7 +568,23 @@ pub struct RxRec {
     pub summary: CallSummary,
 }
 
+/// A planned near-miss frame: when the trigger is seen on `port` for the `countdown`-th time, a
+/// frame that mimics the matching reply (same sequence id, domain and sdoId) but comes from a
+/// sender that is not the selected parent - or answers another requester - is delivered to the
+/// port immediately afterwards, i.e. while the genuine exchange is still in flight.
+#[derive(Clone, Debug)]
+pub struct Mimic {
+    pub port: usize,
+    /// 0: Sync received -> Follow_Up from a non-parent; 1: Sync received -> Sync from a non-parent;
+    /// 2: Delay_Req sent -> Delay_Resp from a non-parent; 3: Delay_Req sent -> Delay_Resp for another requester
+    pub kind: u8,
+    pub countdown: u32,
+    pub src_variant: u8,
+    pub fired: bool,
+}
+
 pub struct World {
+    pub mimics: Vec<Mimic>,
     pub keep_rx: bool,
     pub rx_log: Vec<RxRec>,
     pub keep_snapshots: bool,
@@ -614,6 +633,7 @@ impl World {
         lock_stats_reset();
         let _ = log_counts_take();
         World {
+            mimics: Vec::new(),
             keep_rx: false,
             rx_log: Vec::new(),
             keep_snapshots: false,
@@ -735,6 +755,7 @@ impl World {
                 rec_log,
                 tx_count: 0,
                 rx_count: 0,
+                last_seq: [None; 4],
             });
         }
         let _ = node_index;
@@ -901,6 +922,9 @@ impl World {
                 } else {
                     self.host_call(node, port, HostCall::RxGeneral(frame.clone()), ch)
                 };
+                if !self.mimics.is_empty() && frame.len() >= 34 && frame[0] & 0x0f == 0 {
+                    self.fire_mimics(node, port, &frame, false);
+                }
                 if self.keep_rx {
                     self.rx_log.push(RxRec { seq: self.seq(), at: self.now(), node, port, event, bytes: frame, state_before, summary });
                 }
@@ -1095,6 +1119,44 @@ impl World {
         sum
     }
 
+    fn fire_mimics(&mut self, ni: usize, pi: usize, trigger: &[u8], sent: bool) {
+        let Ok(tf) = Frame::decode(trigger) else { return };
+        let pd = self.nodes[ni].inst.parent_ds();
+        let parent = Pid::new(pd.parent_port_identity.clock_identity.0, pd.parent_port_identity.port_number);
+        let own = self.nodes[ni].ports[pi].pid;
+        for k in 0..self.mimics.len() {
+            let m = self.mimics[k].clone();
+            if m.fired || m.port != pi || (m.kind >= 2) != sent {
+                continue;
+            }
+            if m.countdown > 0 {
+                self.mimics[k].countdown -= 1;
+                continue;
+            }
+            self.mimics[k].fired = true;
+            let cands = [Pid::new([0x77; 8], 3), Pid::new(parent.clock, parent.port.wrapping_add(1)), Pid::new(tf.hdr.source.clock, tf.hdr.source.port.wrapping_add(7)), Pid::new([0xee; 8], 1)];
+            let mut src = cands[m.src_variant as usize % cands.len()];
+            if src == parent {
+                src = cands[0];
+            }
+            let ts = wire::Ts { secs: 1_700_000_000, nanos: 77 };
+            let (event, mut f) = match m.kind {
+                0 => (false, Frame::new(MsgType::FollowUp, src, tf.hdr.seq, wire::Body::FollowUp { precise_origin: ts })),
+                1 => {
+                    let mut f = Frame::new(MsgType::Sync, src, tf.hdr.seq, wire::Body::Sync { origin: ts });
+                    f.hdr.flags = tf.hdr.flags;
+                    (true, f)
+                }
+                2 => (false, Frame::new(MsgType::DelayResp, src, tf.hdr.seq, wire::Body::DelayResp { receive: ts, requesting: own })),
+                _ => (false, Frame::new(MsgType::DelayResp, parent, tf.hdr.seq, wire::Body::DelayResp { receive: ts, requesting: Pid::new(own.clock, own.port.wrapping_add(40)) })),
+            };
+            f.hdr.domain = tf.hdr.domain;
+            f.hdr.sdo_id = tf.hdr.sdo_id;
+            self.out.fault(["noise.mimic_follow_up_from_non_parent", "noise.mimic_sync_from_non_parent", "noise.mimic_delay_resp_from_non_parent", "noise.mimic_delay_resp_for_other_requester"][m.kind.min(3) as usize]);
+            self.inject(ni, pi, event, f.encode(), 1, None);
+        }
+    }
+
     fn transmit(&mut self, ni: usize, pi: usize, event: bool, link_local: bool, data: Vec<u8>, stamp: Option<u128>, cause: &'static str, ch: &mut Chooser) {
         let seq = self.seq();
         let state = self.nodes[ni].ports[pi].state();
@@ -1106,6 +1168,9 @@ impl World {
         }
         if self.monitors {
             self.monitor_emission(ni, pi, &bytes, state, event, cause);
+        }
+        if !self.mimics.is_empty() && bytes.len() >= 34 && bytes[0] & 0x0f == 1 {
+            self.fire_mimics(ni, pi, &bytes, true);
         }
         if self.nodes[ni].silenced {
             self.out.fault("node_silenced_tx_dropped");
@@ -1317,6 +1382,28 @@ impl World {
         let t = f.hdr.msg_type;
         if t.is_event() != event {
             self.out.violate("C10", "C10.wrong_channel", format!("type={}", t.name()), format!("{} sent on the wrong channel", t.name()));
+        }
+        // C10: the sequence id of each originating message type advances by exactly one per emission,
+        // whatever happened to the port (role changes, faults, idle timers) in between
+        let slot = match t {
+            MsgType::Announce => Some(0),
+            MsgType::Sync => Some(1),
+            MsgType::DelayReq => Some(2),
+            MsgType::PdelayReq => Some(3),
+            _ => None,
+        };
+        if let Some(k) = slot {
+            if let Some(prev) = self.nodes[ni].ports[pi].last_seq[k] {
+                if f.hdr.seq != prev.wrapping_add(1) {
+                    self.out.violate(
+                        "C10",
+                        "C10.sequence_id_not_previous_plus_one",
+                        format!("type={}", t.name()),
+                        format!("node {ni} port {pi} emitted {} with sequenceId {} after {} (call {cause}, state {:?})", t.name(), f.hdr.seq, prev, state),
+                    );
+                }
+            }
+            self.nodes[ni].ports[pi].last_seq[k] = Some(f.hdr.seq);
         }
         let master_only_types = matches!(t, MsgType::Announce | MsgType::Sync | MsgType::FollowUp | MsgType::DelayResp);
         if master_only_types && state != PState::Master {
